@@ -448,3 +448,63 @@ def t4(cx):
     dup = [n for n, k in collections.Counter(names).items() if k > 1]
     cx.check(not dup, None, construct=f"{len(names)} function definitions, {len(dup)} duplicated", detail="each accessor is defined once", bad_detail=f"accessors defined more than once: {dup[:4]}", anchor="capi::gen_code", sub="once")
     cx.need(len(Z["paths"]) >= 40, f"only {len(Z['paths'])} data paths enumerated for the zoo")
+
+
+@rule("T8", ["C02", "C07", "C14"], "the C API generated for a class is a function of the CLASS (and the configuration), not of its NAME: generating the API of a same-named class of another layout before does not change it")
+def t8(cx):
+    """Class names are not unique: `Float64[2,3]` and `Float64[2:1,3:0]` are both `Arr2x3Float64`; a struct can be
+    defined again under its name with other fields; arrays of both are again same-named.  For each such pair (X, Y):
+    the API source / declarations of Y generated in a fresh interpreter must equal those generated AFTER X's were
+    generated in the same interpreter (a memo keyed by the name, a registry of emitted names ... would make Y address
+    X's layout).  Evaluated, not matched."""
+    m = cx.m
+    m.func("capi::gen_code")
+
+    def world(first):
+        lab = Lab(m)
+        I = lab.I
+        out = {}
+
+        def thunk():
+            g = lambda mod, n: I.global_lookup(mod, n)
+            F, I32 = g("scalar", "Float64"), g("scalar", "Int32")
+            mk = {
+                "order": lambda: (lab.array("Arr2x3Float64", (2, 3), (0, 1), F), lab.array("Arr2x3Float64", (2, 3), (1, 0), F)),
+                "dynorder": lambda: (lab.array("ArrNx3Float64", (None, 3), (0, 1), F), lab.array("ArrNx3Float64", (None, 3), (1, 0), F)),
+                "struct": lambda: (lab.struct("Pair", [("x", F), ("y", I32)]), lab.struct("Pair", [("y", I32), ("x", F)])),
+            }
+            for key, f in mk.items():
+                X, Y = f()
+                pairs = [(key, X, Y)]
+                if key == "struct":
+                    pairs.append(("array-of-struct", lab.array("ArrNPair", (None,), (0,), X), lab.array("ArrNPair", (None,), (0,), Y)))
+                for k2, X2, Y2 in pairs:
+                    res = {}
+                    for what, conf in (("_gen_c_api", dict(CONF)), ("_gen_c_decl", {})):
+                        if first:
+                            I.call(I.getattr(X2, what), [dict(conf)], {})
+                        s = I.call(I.getattr(Y2, what), [dict(conf)], {})
+                        res[what] = I.getattr(s, "source") if isinstance(s, Obj) else s
+                    out[k2] = res
+            return None
+
+        res = I.explore(thunk, max_paths=8)
+        if len(res) != 1 or res[0]["exc"] is not None:
+            e = res[0]["exc"]
+            raise AnalysisError(f"[T8] same-named classes cannot be generated: {e.etype if e else 'fork'}: {e.msg if e else res[0]['conds']}")
+        return out
+
+    alone, after = world(False), world(True)
+    LAB = {"order": "Float64[2,3] after Float64[2:1,3:0]... (C-order class first, then the other-order class of the same name)", "dynorder": "Float64[:,3] of another axis order, same name", "struct": "struct Pair{y, x} after struct Pair{x, y}", "array-of-struct": "Pair{y,x}[:] after Pair{x,y}[:]"}
+    for key in alone:
+        for what in alone[key]:
+            a_, b_ = alone[key][what], after[key][what]
+            cx.need(isinstance(a_, str) and isinstance(b_, str) and len(a_) > 40, f"[T8] {key}.{what} does not evaluate to source text")
+            if a_ == b_:
+                cx.ok(None, construct=f"{LAB[key]}: {what} unchanged by the earlier generation", detail="generation depends on the class object only", anchor="capi::gen_code", sub="name")
+            else:
+                la, lb = a_.splitlines(), b_.splitlines()
+                k = next((i for i, (x, y) in enumerate(zip(la, lb)) if x != y), min(len(la), len(lb)))
+                cx.bad(None, construct=f"{LAB[key]}: {what} differs from what the class gets alone (line {k}: `{(lb[k] if k < len(lb) else '<end>').strip()[:80]}` instead of `{(la[k] if k < len(la) else '<end>').strip()[:80]}`)",
+                       detail="the generated text depends on what was generated before under the same NAME: the second class gets accessors computed for the first one's layout (other strides / field offsets), although declarations and names match and everything compiles", anchor="capi::gen_code", sub="name")
+    cx.floor(8, "same-named class pairs x (API, declarations)")
